@@ -680,7 +680,17 @@ func (g *Gen) do(c int, r *wire.Req) {
 // exercise it (snapshots, lists, a component of every type, an action, an asset, an update through a
 // frame), so that state the random part left behind becomes observable.
 func (g *Gen) probe() {
+	everywhere := "-4096,-4096,-4096,4096,4096,4096"
 	for _, sid := range sortedKeys(g.w.know.sids) {
+		if strings.Contains(g.w.cfg.Mods, "d") {
+			// the ground planes are the session's: every member is asked for all of them
+			for _, c := range g.liveConns() {
+				if j, ok := g.w.know.joined[c]; ok && j[0] == sid {
+					g.do(c, &wire.Req{Kind: "region", Geo: everywhere})
+					g.do(c, &wire.Req{Kind: "debugInfo"})
+				}
+			}
+		}
 		a, b := g.nextCon, g.nextCon+1
 		g.nextCon += 2
 		g.w.Connect(a)
@@ -692,6 +702,9 @@ func (g *Gen) probe() {
 			continue
 		}
 		g.do(b, &wire.Req{Kind: "join", Target: "id", TargetN: uint32(sid)})
+		if strings.Contains(g.w.cfg.Mods, "d") {
+			g.do(a, &wire.Req{Kind: "region", Geo: everywhere})
+		}
 		maxT, maxE := g.w.know.maxTid[sid], g.w.know.maxEid[sid]
 		for t := 1; t <= maxT && t <= 6; t++ {
 			g.do(a, &wire.Req{Kind: "compList", N1: uint32(t)})
